@@ -265,70 +265,90 @@ structure Formatted (α : Type) where
 
 def metaText (m : MetaMap α) (k : String) : Option (MetaVal α) := m.lookup k
 
-/-- `Element.format` after `formatBasic`: pending scale, then the key's parser.  Nested elements
-    go through this too (with no data): a container keyed like a sensor still runs that parser. -/
-def applyParsers (t : Tables) (ctx : Ctx α) (parentIsRoot : Bool) (lv : Level α) (h : Header) (raw : Bytes)
-    (basic : Raw) : Outcome (Formatted α) := do
-  let d0 : Data α := .raw basic
-  -- pending scale of the parent applies to this element and is cleared
-  let (d1, lv) ← match lv.scale with
-    | some sc => do
-      let vs ← floatSlice d0
-      let scaled ← applyScale vs sc
-      pure (Data.floats scaled, { lv with scale := none })
-    | none => pure (d0, lv)
+/-- a pending scale of the parent applies to this element and is cleared -/
+def scaleStage (lv : Level α) (d0 : Data α) : Outcome (Data α × Level α) :=
+  match lv.scale with
+  | some sc => do
+    let vs ← floatSlice d0
+    let scaled ← applyScale vs sc
+    pure (Data.floats scaled, { lv with scale := none })
+  | none => pure (d0, lv)
+
+/-- the three GPS lock codes -/
+def fixDescription (v : Int) : String :=
+  if v = 0 then "No lock" else if v = 2 then "2D lock" else if v = 3 then "3D lock"
+  else "unknown lock: " ++ toString v
+
+/-- `parseFace` -/
+def parseFaceStage (t : Tables) (ctx : Ctx α) (parentIsRoot : Bool) (lv : Level α) (h : Header) (raw : Bytes)
+    (d1 : Data α) : Outcome (Formatted α) :=
+  let lv := initMetadata ctx lv parentIsRoot
+  if h.count = 0 then .ok ⟨d1, lv, true⟩ else
+  match lv.md.lookup (friendlyName t "TYPE") with
+  | none => .err .format
+  | some (.data (.raw (.str s))) =>
+    match t.faceDefs.lookup (strOfBytes s) with
+    | none => .err .format
+    | some (size, layout) =>
+      if h.size.toNat ≠ size then .err .format
+      else if raw.length < h.count * size then .err .format     -- a container has no payload of its own
+      else do
+        let recs ← (List.range h.count).mapM fun i => faceOf t layout (raw.drop (i * size))
+        .ok ⟨.faces recs, lv, true⟩
+  | some _ => .err .format
+
+/-- the sensor parsers built on `floatType` -/
+def sensorStage (t : Tables) (ctx : Ctx α) (parentIsRoot : Bool) (lv : Level α) (p : String) (d1 : Data α) :
+    Outcome (Formatted α) :=
+  match t.layouts.lookup p with
+  | none => .unmodelled
+  | some (w, order) => do
+    -- parseGPS / parseAccel / parseGyro / parseWhiteBalanceRGB init metadata, parseMagnetometer does not
+    let inits := p ≠ "parseMagnetometer"
+    let lv := if inits then initMetadata ctx lv parentIsRoot else lv
+    let vs ← floatSlice d1
+    let samples ← regroup vs w order
+    let d : Data α :=
+      if p = "parseGPS" then .gps samples
+      else if p = "parseWhiteBalanceRGB" then .rgb samples
+      else .xyz p samples
+    .ok ⟨d, lv, inits⟩
+
+/-- the key's parser (keys.go `keyParsers`) applied to the (possibly scaled) data -/
+def parseStage (t : Tables) (ctx : Ctx α) (parentIsRoot : Bool) (h : Header) (raw : Bytes)
+    (d1 : Data α) (lv : Level α) : Outcome (Formatted α) :=
   let key := keyString h.key
   let name := friendlyName t key
   match t.keyParsers.lookup key with
   | none => .ok ⟨d1, lv, false⟩
-  | some "" => .ok ⟨d1, lv, false⟩
-  | some "parseMetadata" => .ok ⟨d1, { lv with md := lv.md.set name (.data d1) }, false⟩
-  | some "parseHasMetadata" => .ok ⟨d1, initMetadata ctx lv parentIsRoot, true⟩
-  | some "parseScale" => do
-    let vs ← floatSlice d1
-    if vs.isEmpty then .err .format else
-    .ok ⟨.scale vs, { lv with scale := some vs }, false⟩
-  | some "parseGPSDoP" =>
-    match d1 with
-    | .raw (.ints 'S' true [v]) =>
-      let d : Data α := .dop (FNum.div (FNum.ofInt v) FNum.hundred)
-      .ok ⟨d, { lv with md := lv.md.set name (.data d) }, false⟩
-    | _ => .err .format
-  | some "parseGPSFix" =>
-    match d1 with
-    | .raw (.ints 'L' true [v]) =>
-      let d : Data α := .fix v.toNat
-      let desc := if v = 0 then "No lock" else if v = 2 then "2D lock" else if v = 3 then "3D lock"
-        else "unknown lock: " ++ toString v
-      .ok ⟨d, { lv with md := (lv.md.set name (.data d)).set "gps_fix_description" (.text desc) }, false⟩
-    | _ => .err .format
-  | some "parseFace" =>
-    let lv := initMetadata ctx lv parentIsRoot
-    if h.count = 0 then .ok ⟨d1, lv, true⟩ else
-    match lv.md.lookup (friendlyName t "TYPE") with
-    | none => .err .format
-    | some (.data (.raw (.str s))) =>
-      match t.faceDefs.lookup (strOfBytes s) with
-      | none => .err .format
-      | some (size, layout) =>
-        if h.size.toNat ≠ size then .err .format else do
-          let recs ← (List.range h.count).mapM fun i => faceOf t layout (raw.drop (i * size))
-          .ok ⟨.faces recs, lv, true⟩
-    | some _ => .err .format
   | some p =>
-    match t.layouts.lookup p with
-    | none => .unmodelled
-    | some (w, order) => do
-      -- sensors: parseGPS / parseAccel / parseGyro / parseWhiteBalanceRGB init metadata, parseMagnetometer does not
-      let inits := p ≠ "parseMagnetometer"
-      let lv := if inits then initMetadata ctx lv parentIsRoot else lv
+    if p = "" then .ok ⟨d1, lv, false⟩
+    else if p = "parseMetadata" then .ok ⟨d1, { lv with md := lv.md.set name (.data d1) }, false⟩
+    else if p = "parseHasMetadata" then .ok ⟨d1, initMetadata ctx lv parentIsRoot, true⟩
+    else if p = "parseScale" then do
       let vs ← floatSlice d1
-      let samples ← regroup vs w order
-      let d : Data α :=
-        if p = "parseGPS" then .gps samples
-        else if p = "parseWhiteBalanceRGB" then .rgb samples
-        else .xyz p samples
-      .ok ⟨d, lv, inits⟩
+      if vs.isEmpty then .err .format else
+      .ok ⟨.scale vs, { lv with scale := some vs }, false⟩
+    else if p = "parseGPSDoP" then
+      match d1 with
+      | .raw (.ints 'S' true [v]) =>
+        let d : Data α := .dop (FNum.div (FNum.ofInt v) FNum.hundred)
+        .ok ⟨d, { lv with md := lv.md.set name (.data d) }, false⟩
+      | _ => .err .format
+    else if p = "parseGPSFix" then
+      match d1 with
+      | .raw (.ints 'L' true [v]) =>
+        let d : Data α := .fix v.toNat
+        .ok ⟨d, { lv with md := (lv.md.set name (.data d)).set "gps_fix_description" (.text (fixDescription v)) }, false⟩
+      | _ => .err .format
+    else if p = "parseFace" then parseFaceStage t ctx parentIsRoot lv h raw d1
+    else sensorStage t ctx parentIsRoot lv p d1
+
+/-- `Element.format` after `formatBasic`: pending scale, then the key's parser.  Nested elements
+    go through this too (with no data): a container keyed like a sensor still runs that parser. -/
+def applyParsers (t : Tables) (ctx : Ctx α) (parentIsRoot : Bool) (lv : Level α) (h : Header) (raw : Bytes)
+    (basic : Raw) : Outcome (Formatted α) :=
+  (scaleStage lv (.raw basic)).bind fun (d1, lv) => parseStage t ctx parentIsRoot h raw d1 lv
 
 /-- `Element.format` of a non-nested element, given the raw payload -/
 def formatElem (t : Tables) (ctx : Ctx α) (parentIsRoot : Bool) (lv : Level α) (h : Header) (raw : Bytes) :
